@@ -41,6 +41,7 @@ X_KINDS = ["rows2", "rows2_df", "rows0", "width+1", "width-1", "df_width+1", "re
 Y_KINDS = ["y_true_multi", "y_pred_multi"]
 B_KINDS = ["rows1", "rows1_df", "width+1", "width-1", "df_width+1", "renamed", "multicol"]
 ALL_KINDS = X_KINDS + Y_KINDS + [k for k in B_KINDS if k not in X_KINDS]
+ALL_KINDS = ALL_KINDS + ["ref:" + k for k in B_KINDS]   # the same malformed payload handed to set_reference
 
 
 def scenarios(tier):
@@ -234,6 +235,8 @@ def run_single(ctx, name, cfg, k, events, pos, kind, base):
 def _run_single(ctx, name, cfg, k, events, pos, kind, base):
     """H with one malformed call inserted before event `pos`; compares with base (trace of H alone)."""
     sig = f"C14:{name}:{kind}"
+    via_ref = kind.startswith("ref:")
+    kind = kind[4:] if via_ref else kind
     kinds, d, nrows, names_est, width_est = _applicable(name, k, pos, events)
     det = adapters.build(name, cfg)
     for i, ev in enumerate(events[:pos]):
@@ -257,6 +260,8 @@ def _run_single(ctx, name, cfg, k, events, pos, kind, base):
                 det.update([1, 0], yp)
             else:
                 det.update(yt, np.array([1, 0, 1]))
+        elif via_ref:
+            det.set_reference(bad_x(k, kind, d, nrows, names_est))
         else:
             det.update(bad_x(k, kind, d, nrows, names_est))
         raised = None
@@ -265,8 +270,10 @@ def _run_single(ctx, name, cfg, k, events, pos, kind, base):
     except Exception as e:  # noqa: BLE001
         raised = type(e).__name__
     ctx.sim_time += 1
-    ctx.fault(kind)
-    where = f"{kind} injected before call {pos} of {len(events)} ({'after' if names_est else 'before'} the first DataFrame, width established: {width_est}, restart pending: {pending})"
+    ctx.fault(("ref:" if via_ref else "") + kind)
+    if via_ref:
+        pending = False   # set_reference performs no pending restart: nothing at all may move
+    where = f"{kind} {'handed to set_reference' if via_ref else 'injected'} before call {pos} of {len(events)} ({'after' if names_est else 'before'} the first DataFrame, width established: {width_est}, restart pending: {pending})"
     gap = k == "batch" and kind == "df_width+1" and not names_est
 
     def fail(vkind, suffix, msg):
@@ -334,6 +341,8 @@ def run(case, ctx):
     positions = case.get("positions") or range(len(events) + 1)
     for pos in positions:
         kinds = _applicable(name, k, pos, events)[0]
+        if k == "batch":
+            kinds = kinds + ["ref:" + x for x in kinds]
         for kind in kinds:
             ctx.step = pos * 16 + ALL_KINDS.index(kind)
             r = run_single(ctx, name, cfg, k, events, pos, kind, base)
